@@ -196,7 +196,8 @@ func acceptingEdgesDeep(fn *ssa.Function, acc acceptFn, depth int) map[edge]bool
 					continue
 				}
 			}
-			if good {
+			if good || (!known && !reach[hb]) {
+				// (a value computed behind the accepting edges may be GOOD: "return store, ok")
 				sawGood = true
 			}
 			if reach[hb] && (good || !known) {
@@ -244,6 +245,138 @@ func cmpOf(cond ssa.Value) (c cmp, truth bool, ok bool) {
 			return c, truth, false
 		}
 	}
+}
+
+// mirrorOp is the operator of the comparison with its operands swapped; negOp the one of
+// its negation.
+func mirrorOp(op token.Token) token.Token {
+	switch op {
+	case token.LSS:
+		return token.GTR
+	case token.GTR:
+		return token.LSS
+	case token.LEQ:
+		return token.GEQ
+	case token.GEQ:
+		return token.LEQ
+	}
+	return op
+}
+
+func negOp(op token.Token) token.Token {
+	switch op {
+	case token.LSS:
+		return token.GEQ
+	case token.GTR:
+		return token.LEQ
+	case token.LEQ:
+		return token.GTR
+	case token.GEQ:
+		return token.LSS
+	case token.EQL:
+		return token.NEQ
+	case token.NEQ:
+		return token.EQL
+	}
+	return op
+}
+
+func relImplies(have, want token.Token) bool {
+	if have == want {
+		return true
+	}
+	switch want {
+	case token.LEQ:
+		return have == token.LSS || have == token.EQL
+	case token.GEQ:
+		return have == token.GTR || have == token.EQL
+	case token.NEQ:
+		return have == token.LSS || have == token.GTR
+	}
+	return false
+}
+
+// relAcc accepts the edges of an If on which "a op b" is known to hold, whatever the
+// operand order and polarity the comparison is written in (a > b, b < a, !(a <= b) ...).
+func relAcc(op token.Token, isA, isB func(ssa.Value) bool) acceptFn {
+	return func(iff *ssa.If) (bool, bool) {
+		cm, truth, ok := cmpOf(iff.Cond)
+		if !ok {
+			return false, false
+		}
+		o := cm.op
+		switch {
+		case isA(cm.x) && isB(cm.y):
+		case isA(cm.y) && isB(cm.x):
+			o = mirrorOp(o)
+		default:
+			return false, false
+		}
+		// on the "truth" edge a o b holds, on the other a negOp(o) b
+		relT, relF := o, negOp(o)
+		if !truth {
+			relT, relF = relF, relT
+		}
+		return relImplies(relT, op), relImplies(relF, op)
+	}
+}
+
+// vsite is one contribution to a value together with the place it enters from: the block p that
+// stores/returns it, or the edge p->s that carries it into a phi.
+type vsite struct {
+	v    ssa.Value
+	p, s *ssa.BasicBlock
+}
+
+// valueSites decomposes v, used at block p, into its contributions through phis and through
+// the results of new helper functions.
+func valueSites(v ssa.Value, p, s *ssa.BasicBlock, depth int) []vsite {
+	if depth > 6 {
+		return []vsite{{v, p, s}}
+	}
+	switch x := v.(type) {
+	case *ssa.Phi:
+		var out []vsite
+		for i, e := range x.Edges {
+			if e == v {
+				continue
+			}
+			out = append(out, valueSites(e, x.Block().Preds[i], x.Block(), depth+1)...)
+		}
+		return out
+	case *ssa.Call, *ssa.Extract:
+		idx := 0
+		call, _ := x.(*ssa.Call)
+		if ex, isEx := x.(*ssa.Extract); isEx {
+			call, _ = ex.Tuple.(*ssa.Call)
+			idx = ex.Index
+		}
+		if call == nil {
+			break
+		}
+		h := call.Call.StaticCallee()
+		if h == nil || !newHelpers[h] || len(h.Blocks) == 0 {
+			break
+		}
+		var out []vsite
+		for _, r := range returnsOf(h) {
+			if idx < len(r.Results) {
+				out = append(out, valueSites(unspill(r, r.Results[idx]), r.Block(), nil, depth+1)...)
+			}
+		}
+		return out
+	}
+	return []vsite{{v, p, s}}
+}
+
+// siteGuarded: the contribution can only be made behind an accepting edge.
+func siteGuarded(vs vsite, acc acceptFn) bool {
+	fn := vs.p.Parent()
+	edges := acceptingEdgesDeep(fn, acc, 0)
+	if vs.s != nil && edges[edge{vs.p, vs.s}] {
+		return true
+	}
+	return len(edges) > 0 && !reachable(fn, edges)[vs.p]
 }
 
 // equalEdge tells, for an If on an (in)equality of two values satisfying px/py (in either
@@ -457,6 +590,18 @@ func storesTo(a *ssa.Alloc) []*ssa.Store {
 				for k, b := range r.Bindings {
 					if b == v && k < len(fn.FreeVars) {
 						visit(fn.FreeVars[k], depth+1)
+					}
+				}
+			case ssa.CallInstruction:
+				// the address handed to a function of the same package (go fill(&err), helper(&n)):
+				// what that function stores through the parameter
+				cal := r.Common().StaticCallee()
+				if cal == nil || cal.Pkg != a.Parent().Pkg || len(cal.Blocks) == 0 || r.Common().IsInvoke() {
+					continue
+				}
+				for k, arg := range r.Common().Args {
+					if arg == v && k < len(cal.Params) {
+						visit(cal.Params[k], depth+1)
 					}
 				}
 			}
